@@ -271,6 +271,109 @@ def check_dynamic_keep(case, ev=None, scratch=None):
             scratch.clean()
 
 
+SHAPE_SRC = """import dds
+import vlog
+
+VER = {ver}
+
+
+def leaf():
+    vlog.rec('leaf')
+    return {ret}
+
+
+def root():
+    vlog.rec('root')
+    return dds.keep({path!r}, leaf)
+"""
+SHAPE_RETS = {"tuple": "('leaf', VER)", "text": "'leaf %d' % VER", "bytes": "b'leaf %d' % VER"}
+
+
+def shape_strategy():
+    from hypothesis import strategies as st
+
+    seg = st.sampled_from(["reports", "daily", "a", "b"])
+    base = st.lists(seg, min_size=1, max_size=3)
+    # each step keeps either a longer path below the previous one, a prefix of it, or the same / an unrelated path
+    step = st.tuples(st.sampled_from(["deeper", "deeper", "prefix", "prefix", "same", "other"]), seg, st.booleans()).map(list)
+    return st.fixed_dictionaries({"shape": base, "store": st.sampled_from(["local", "local", "local-lru", "memory"]), "ret": st.sampled_from(sorted(SHAPE_RETS)),
+                                  "steps": st.lists(step, min_size=1, max_size=4)})
+
+
+def check_path_shape(case, ev=None, scratch=None):
+    """Between two evaluations the kept path changes shape: what used to be a directory of the data directory becomes an object
+    (/reports/daily/summary, then /reports/daily) or the reverse.  Each evaluation is either refused (it raises: nothing is
+    claimed for it) or, when it returns, the path it kept serves the value it returned - through dds.load and, for the local
+    store, through the file under the data directory."""
+    from ..harness import proc
+
+    own = scratch is None
+    scratch = scratch or common.Scratch("vf-c04")
+    root, store_dir = scratch.sub(), scratch.sub()
+    w = [proc.Worker()]
+    try:
+        mt = 1600000000
+        segs = list(case["shape"])
+        outcomes, kinds = [], set()
+
+        def init():
+            w[0].call("init", root=root, accepted=["pk"], store={"kind": case["store"], "dir": store_dir})
+
+        for i, (how, seg, inproc) in enumerate([["same", "", True]] + case["steps"]):
+            if how == "deeper":
+                segs = segs + [seg]
+            elif how == "prefix" and len(segs) > 1:
+                segs = segs[:-1]
+            elif how == "other":
+                segs = ["elsewhere", seg]
+            kinds.add(how)
+            path = "/" + "/".join(segs)
+            files = {"pk/__init__.py": "", "pk/m0.py": SHAPE_SRC.format(ver=i, path=path, ret=SHAPE_RETS[case["ret"]])}
+            mt += 10
+            if i == 0 or not (inproc or case["store"] == "memory"):
+                for rel, content in files.items():
+                    pth = os.path.join(root, rel)
+                    os.makedirs(os.path.dirname(pth), exist_ok=True)
+                    open(pth, "w").write(content)
+                    os.utime(pth, (mt, mt))
+                if i > 0:
+                    w[0].close()
+                    w[0] = proc.Worker()
+                init()
+            else:
+                w[0].call("write_files", files=files, reload=False, mtime=mt)
+                w[0].call("call", module="vf.harness.session", func="_reload_present", args=[["pk", "pk.m0"]])
+            r = w[0].call("eval", module="pk.m0", func="root", style="eval")
+            tag = f"path shape change (store {case['store']}, step {i}: {how} -> keep {path})"
+            if r["exc"] is not None:
+                outcomes.append("refused")
+                continue
+            want = {"tuple": ("leaf", i), "text": "leaf %d" % i, "bytes": b"leaf %d" % i}[case["ret"]]
+            if not same(r["value"], want):
+                raise Violation(f"{tag}: returned {r['value']!r}, plain execution gives {want!r}", case)
+            ld = w[0].call("load", path=path)
+            if ld["exc"] is not None or not same(ld["value"], want):
+                raise Violation(f"{tag}: the evaluation returned {r['value']!r} but load({path}) gives "
+                                f"{(ld['exc']['type'] + ': ' + ld['exc']['msg'][:160]) if ld['exc'] else repr(ld['value'])}", case)
+            if case["store"] != "memory" and case["ret"] in ("text", "bytes"):
+                fp = os.path.join(store_dir, "data", *segs)
+                raw = want.encode() if isinstance(want, str) else want
+                try:
+                    with open(fp, "rb") as fh:
+                        got = fh.read()
+                except OSError as e:
+                    raise Violation(f"{tag}: the evaluation returned but the file of {path} under the data directory cannot be read: {type(e).__name__}: {e}", case)
+                if got != raw:
+                    raise Violation(f"{tag}: the file of {path} under the data directory holds {got[:60]!r}, the keep returned {raw!r}", case)
+            outcomes.append("committed")
+        if ev is not None:
+            ev.case(case, bool(kinds & {"deeper", "prefix"}), features=["path-shape:" + "+".join(sorted(kinds)), "shape-outcomes:" + "+".join(sorted(set(outcomes)))])
+    finally:
+        w[0].close()
+        if own:
+            scratch.clean()
+
+
 def same(a, b):
     if isinstance(a, bytearray):
         a = bytes(a)
@@ -288,6 +391,8 @@ def shard(idx, n, tier, seed, count):
                 check_dynamic_keep({"dyn_keep": True, "store": ["memory", "local", "local-lru"][idx], "versions": [1, 2, 2, 3]}, ev, scratch)
             except Violation as viol:
                 v = viol
+        if v is None and idx % 4 == 3:
+            v = common.hyp_drive(shape_strategy(), lambda c: check_path_shape(c, ev, scratch), seed * 1000 + 450 + idx, max(3, count // 6), ev)
     finally:
         scratch.clean()
     return ev, v
@@ -301,5 +406,7 @@ def run(tier, seed, scale=1.0):
 def replay(case):
     if case.get("dyn_keep"):
         check_dynamic_keep(case)
+    elif "shape" in case:
+        check_path_shape(case)
     else:
         check_case(case)
